@@ -1,7 +1,7 @@
 ------------------------------- MODULE C09Gen -------------------------------
 (* Generates the C09 cases: definition shapes (read/write, master/slave parts,    *)
 (* defaults "*r", templates, ZZ lists, templates without ZZ, chained ids with      *)
-(* explicit and implicit lengths) x field inputs x slave answers x part arrival    *)
+(* explicit lengths, for read chains also omitted lengths) x field inputs x slave answers x part arrival    *)
 (* orders and gaps.  The harness replays the operation lists on real objects.      *)
 EXTENDS MsgStore, Json, IOUtils, SequencesExt, FiniteSets
 
@@ -85,7 +85,7 @@ ChainFieldLists(part) ==
 CDefs(dir) ==
   {[dir |-> dir, zzs |-> zzs, pbsb |-> IF dfl.on = 1 THEN <<>> ELSE PBSB,
     chain |-> [i \in 1..Len(sh[1]) |-> [id |-> sh[1][i], len |-> sh[2][i]]], fields |-> fl, dfl |-> dfl] :
-     sh \in {x \in ChainShapes : dir = "r" \/ \A i \in 1..(Len(x[2]) - 1) : x[2][i] >= 0},
+     sh \in {x \in ChainShapes : dir = "r" \/ \A i \in 1..Len(x[2]) : x[2][i] >= 0},      \* omitted lengths: read chains only
      zzs \in {<<8>>, <<8, 80>>}, dfl \in {NoDfl, Dfl(ANY)},
      fl \in ChainFieldLists(IF dir = "r" THEN "" ELSE "m") \cup (IF dir = "r" THEN {} ELSE ChainFieldLists(""))}
 (* how 5 answer bytes are spread over the parts of a read chain *)
